@@ -76,6 +76,43 @@ def holds(c, a):
     raise ValueError(c)
 
 
+def violated(desc, a):
+    """direct (certifying) check of one assignment: [] if `a` gives every declared variable a value inside its
+    domain and satisfies every constraint, else a list of what is broken (strings / the constraints themselves)"""
+    out = []
+    for n, lb, ub in desc["vars"]:
+        if n not in a:
+            out.append(f"{n} has no value")
+        elif not (isinstance(a[n], int) and lb <= a[n] <= ub):
+            out.append(f"{n}={a[n]} outside {lb}..{ub}")
+    if out:
+        return out
+    return [c for c in desc["constraints"] if not holds(c, a)]
+
+
+def max_matching(doms):
+    """size of a maximum matching variable -> value (Kuhn's augmenting paths); doms: list of iterables of values.
+    all_different(x_0..x_k) with x_i in doms[i] is satisfiable iff the result equals len(doms) (Hall / Konig)."""
+    doms = [list(d) for d in doms]
+    owner = {}
+
+    def try_(i, seen):
+        for v in doms[i]:
+            if v in seen:
+                continue
+            seen.add(v)
+            if v not in owner or try_(owner[v], seen):
+                owner[v] = i
+                return True
+        return False
+
+    size = 0
+    for i in range(len(doms)):
+        if try_(i, set()):
+            size += 1
+    return size, {i: v for v, i in owner.items()}
+
+
 def all_solutions(desc, hints=None):
     names = [v[0] for v in desc["vars"]]
     doms = []
@@ -122,33 +159,45 @@ def build_expr(e, vars_):
     raise ValueError(e)
 
 
+def add_var(m, vs, v):
+    """declare one variable [name, lb, ub] on the live model m through the public constructor"""
+    n, lb, ub = v
+    vs[n] = m.int_var(lb, ub, n)
+    return vs[n]
+
+
+def add_constraint(m, vs, c):
+    """add one described constraint to the live model m through the public constructors / operators"""
+    k = c[0]
+    if k == "rel":
+        l, r = build_expr(c[2], vs), build_expr(c[3], vs)
+        try:
+            con = (l == r) if c[1] == "==" else (l != r)
+        except TypeError:
+            raise NotBuildable(str(c))
+        if isinstance(con, bool) or con is NotImplemented:
+            raise NotBuildable(f"comparison does not produce a constraint: {c}")
+        m.add(con)
+    elif k == "all_different":
+        m.add(m.all_different([vs[n] for n in c[1]]))
+    elif k in ("sum_eq", "sum_le", "sum_ge"):
+        m.add(getattr(m, k)([vs[n] for n in c[1]], c[2]))
+    elif k == "circuit":
+        m.add(m.circuit([vs[n] for n in c[1]]))
+    elif k == "no_overlap":
+        m.add(m.no_overlap([vs[n] for n in c[1]], list(c[2])))
+    elif k == "cumulative":
+        m.add(m.cumulative([vs[n] for n in c[1]], list(c[2]), list(c[3]), c[4]))
+    else:
+        raise ValueError(c)
+
+
 def build_model(desc):
     from solvor.cp import Model
     m = Model()
     vs = {}
-    for n, lb, ub in desc["vars"]:
-        vs[n] = m.int_var(lb, ub, n)
+    for v in desc["vars"]:
+        add_var(m, vs, v)
     for c in desc["constraints"]:
-        k = c[0]
-        if k == "rel":
-            l, r = build_expr(c[2], vs), build_expr(c[3], vs)
-            try:
-                con = (l == r) if c[1] == "==" else (l != r)
-            except TypeError:
-                raise NotBuildable(str(c))
-            if isinstance(con, bool) or con is NotImplemented:
-                raise NotBuildable(f"comparison does not produce a constraint: {c}")
-            m.add(con)
-        elif k == "all_different":
-            m.add(m.all_different([vs[n] for n in c[1]]))
-        elif k in ("sum_eq", "sum_le", "sum_ge"):
-            m.add(getattr(m, k)([vs[n] for n in c[1]], c[2]))
-        elif k == "circuit":
-            m.add(m.circuit([vs[n] for n in c[1]]))
-        elif k == "no_overlap":
-            m.add(m.no_overlap([vs[n] for n in c[1]], list(c[2])))
-        elif k == "cumulative":
-            m.add(m.cumulative([vs[n] for n in c[1]], list(c[2]), list(c[3]), c[4]))
-        else:
-            raise ValueError(c)
+        add_constraint(m, vs, c)
     return m, vs
